@@ -220,6 +220,21 @@ PROPS = {
                         "the per-query loops of sel_* are not brought under invariants: bounded replays only"],
         "technique": "contract-based deductive verification of the distance kernel (symbolic number of stations) + run-time contracts with a brute-force oracle (bounded)",
     },
+    "C19": {
+        "level": "other",
+        "engines": [{"kind": "pyse"}],
+        "explanation": "BOUNDED IN SHAPE, all values (z3): match_consecutive_partitions is executed symbolically for two partitions with "
+        "symbolic peak frequencies, directions, NaN flags and thresholds (every feasible path of the greedy loop): the marker is -999 exactly on "
+        "empty partitions, a match is a previous index whose partition is non-empty and within the sea/swell thresholds, no previous partition is "
+        "continued twice. BOUNDED (run-time contract of np_track_partitions with an independent checker): EXHAUSTIVE over all 729 histories of 3 "
+        "steps x 2 partitions on a 3-symbol alphabet plus seeded random histories (2-7 steps, 1-4 partitions, gaps, slot swaps): identifiers are "
+        "-999 exactly on empty partitions, unique within a step, exactly 0..N-1 issued in order of first appearance, carried only within the "
+        "thresholds, never reappear once dropped. dfp_swell proved.",
+        "trusted_base": ["independent checker in contracts/tracking.py"],
+        "assumptions": ["three or more partitions: the symbolic run exceeds the path budget (bounded replays only)",
+                        "int16 identifiers: more than 32767 births are outside the claim", "sites tracked independently: apply_ufunc(vectorize) contract"],
+        "technique": "contract-based symbolic execution of the real matching function (bounded shape, all values) + exhaustive/random run-time contract of the identifier bookkeeping",
+    },
 }
 
 _PENDING = "not yet brought under contract in the current build round (see DESIGN.md section 8 for the order of work)"
